@@ -136,6 +136,51 @@ def extract_fn(repo_dir, fs):
     return src.text[f['start']:f['end'] + 1], f['line']
 
 
+_OPND = r'(?:(?<!&)[*&]\s*)?[A-Za-z_]\w*(?:(?:\.|::)[A-Za-z_]\w*|\.\d+)*'
+_EQ_RX = re.compile(r'(?<![\w\)\]\.>\'"])(' + _OPND + r')\s*(==|!=)\s*(' + _OPND + r')(?![\w\(\[\.:!<\'"])')
+PROBE_DECL = """
+// Probe for executable `==` / `!=` between two plain operands: for some std types (String, Vec, slices, Ordering) Verus gives the exec
+// operators no specification and says nothing, so an obligation that fails behind such a comparison says nothing about the code.
+// Every such comparison in the real text is routed through this function; its precondition -- the exec result is the spec equality --
+// holds silently for the types Verus specifies and fails by name for the others (the unit is then UNDECIDED, never a violation).
+pub fn vx_probe_eq(e: bool, Ghost(s): Ghost<bool>) -> (r: bool) requires e == s ensures r == e { e }
+"""
+
+
+def probe_equalities(text):
+    """`A == B` / `A != B` with plain operands (identifiers, field / enum paths, optional * or &) -> vx_probe_eq(A == B, Ghost(A == B)).
+    Comments are left alone; literals, calls and index expressions are not touched."""
+    out = []
+    for line in text.split('\n'):
+        code, sep, rest = line.partition('//')
+        def rep(m):
+            a, op, b = m.group(1), m.group(2), m.group(3)
+            if a in ('true', 'false') or b in ('true', 'false'):
+                return m.group(0)
+            # constants / statics cannot be read in ghost code; they are integers or structural values anyway
+            if any(re.fullmatch(r'(?:\w+::)*[A-Z][A-Z0-9_]*', x.lstrip('*& ')) for x in (a, b)):
+                return m.group(0)
+            # the comparison must be a whole operand of `&&` / `||` / `!` / a condition: no arithmetic, bit operation or cast around it
+            before = m.string[:m.start()].rstrip()
+            after = m.string[m.end():].lstrip()
+            if before.endswith(('&&', '||', '=>')):
+                pass
+            elif before.endswith('!'):
+                return m.group(0)   # `!a == b` is `(!a) == b`
+            elif before.endswith('=') and not before.endswith(('==', '<=', '>=', '!=', '+=', '-=', '*=', '/=', '|=', '&=', '^=', '%=')):
+                pass    # right-hand side of an assignment / let
+            elif before[-1:] in '+-*/%|^&<>=':
+                return m.group(0)
+            if after.startswith(('&&', '||')):
+                pass
+            elif after[:1] in '+-*/%|^&<>?' or after.startswith('as '):
+                return m.group(0)
+            e = '%s %s %s' % (a, op, b)
+            return 'vx_probe_eq(%s, Ghost(%s))' % (e, e)
+        out.append(_EQ_RX.sub(rep, code) + sep + rest)
+    return '\n'.join(out)
+
+
 def annotate_fn(fs, text, negctl=False):
     """Apply rules and splice the contract.  Returns (new_text, info)."""
     info = dict(rules=[], clauses=[], loops=0)
@@ -144,6 +189,14 @@ def annotate_fn(fs, text, negctl=False):
         text, pre_applied = fs.pre(text)
     text, applied = apply_rules(text, fs.body_sub)
     info['rules'] = list(pre_applied) + applied
+    # Constructs whose executable meaning Verus leaves unspecified WITHOUT a diagnostic: an obligation that fails because of them says
+    # nothing about the code, so the unit must be undecided rather than report a violation (checked on the rule-processed real text,
+    # before any specification text is spliced in).  `==` / `!=` on core::cmp::Ordering is one (the exec operators have no specification).
+    code = re.sub(r'//[^\n]*', '', text)
+    m = re.search(r'(?:==|!=)\s*(?:(?:std|core)::cmp::)?Ordering::\w+|(?:(?:std|core)::cmp::)?Ordering::\w+\s*(?:==|!=)', code)
+    if m:
+        raise Lost("fn %s: executable `==`/`!=` on Ordering (%r) has no specification in Verus and no rule of this unit covers it" % (fs.name, m.group(0)))
+    text = probe_equalities(text)
     src = Source('<fn %s>' % fs.name, text)
     f = src.find_fn(fs.name)
     open_b, close_b = f['open'], f['end']
@@ -322,6 +375,7 @@ def build_unit(unit, repo_dir, negctl=False):
     parts.append('#![allow(unused_imports, unused_variables, dead_code, unused_mut, unused_assignments, non_camel_case_types, non_upper_case_globals, unused_parens, unused_braces)]\n')
     parts.append('use vstd::prelude::*;\nverus! {\n')
     parts.append(unit.prelude)
+    parts.append(PROBE_DECL)
     parts.append('\n')
     parts.append(unit.spec)
     parts.append('\n')
